@@ -11,6 +11,7 @@ package main
 
 import (
 	"fmt"
+	"sort"
 	"strings"
 
 	"verif/mc"
@@ -146,4 +147,100 @@ func runKanjiChars() {
 			}
 		})
 	chk.Sample("kanji-char", cases[len(cases)/2])
+}
+
+// The same for the other two compact modes: every digit in numeric mode and every one of the 45
+// alphanumeric characters, alone and as the first / last character among the length families'
+// representative, at the capacity of versions 1, 9, 10, 26, 27, 40 and one beyond, every level.
+type modeCharCase struct {
+	Kind  string // "mode-char"
+	Mode  int    // index into modes
+	Char  string
+	Level int
+	N     int
+	Place string
+}
+
+func modeCharOne(l *mc.Local, c modeCharCase) {
+	m, lv := modes[c.Mode], levels[c.Level]
+	var content string
+	switch c.Place {
+	case "all":
+		content = strings.Repeat(c.Char, c.N)
+	case "first":
+		content = c.Char + strings.Repeat(m.unit, c.N-1)
+	default:
+		content = strings.Repeat(m.unit, c.N-1) + c.Char
+	}
+	want := 0
+	for v := 1; v <= 40; v++ {
+		if c.N <= qr.Capacity(v, lv.ref, m.ref) {
+			want = v
+			break
+		}
+	}
+	hints := map[gozxing.EncodeHintType]interface{}{gozxing.EncodeHintType_QR_MASK_PATTERN: 0}
+	var code *qrenc.QRCode
+	var err error
+	pm, site := mc.Guard(func() { code, err = qrenc.Encoder_encode(content, lv.lib, hints) })
+	l.Count("evaluations", 1)
+	l.Count("mode_char_calls", 1)
+	if pm != "" {
+		chk.Violation("C13/panic/"+site, fmt.Sprintf("panic %q in Encoder_encode of %d %s characters incl. %q", pm, c.N, m.name, c.Char), c)
+		return
+	}
+	got := 0
+	mode := "-"
+	if code != nil && err == nil {
+		got = code.GetVersion().GetVersionNumber()
+		mode = fmt.Sprint(code.GetMode())
+	}
+	what := fmt.Sprintf("%d %s characters (%q %s) at level %s", c.N, m.name, c.Char, c.Place, lv.name)
+	switch {
+	case want == 0 && got != 0:
+		chk.Violation("C13/qr/mode-char/cap40+1-accepted", fmt.Sprintf("%s: version %d returned although the content exceeds version 40", what, got), c)
+	case want != 0 && got == 0:
+		chk.Violation("C13/qr/mode-char/refused-though-fits", fmt.Sprintf("%s: refused (%v) although version %d holds %d", what, err, want, qr.Capacity(want, lv.ref, m.ref)), c)
+	case want != got:
+		chk.Violation("C13/qr/mode-char/not-smallest", fmt.Sprintf("%s: version %d (mode %s) chosen, version %d holds %d", what, got, mode, want, qr.Capacity(want, lv.ref, m.ref)), c)
+	default:
+		l.Distinct("nontrivial", fmt.Sprint("mode-char/", c.Mode, c.Char, c.Level, c.N, c.Place))
+	}
+}
+
+func runModeChars() {
+	var cases []modeCharCase
+	for mi, chars := range map[int]string{0: "0123456789", 1: "0123456789ABCDEFGHIJKLMNOPQRSTUVWXYZ $%*+-./:"} {
+		for _, ch := range chars {
+			for lv := range levels {
+				for _, v := range []int{1, 9, 10, 26, 27, 40} {
+					cp := qr.Capacity(v, levels[lv].ref, modes[mi].ref)
+					for _, n := range []int{cp, cp + 1} {
+						for _, pl := range []string{"all", "first", "last"} {
+							if mi == 1 && pl == "all" && ch >= '0' && ch <= '9' {
+								continue // digits alone are numeric content
+							}
+							cases = append(cases, modeCharCase{"mode-char", mi, string(ch), lv, n, pl})
+						}
+					}
+				}
+			}
+		}
+	}
+	sort.Slice(cases, func(a, b int) bool {
+		if cases[a].N != cases[b].N {
+			return cases[a].N > cases[b].N
+		}
+		return fmt.Sprint(cases[a]) < fmt.Sprint(cases[b])
+	})
+	chunk := 16
+	n := (len(cases) + chunk - 1) / chunk
+	chk.Range(fmt.Sprintf("QR numeric / alphanumeric capacity for every character of the mode: 10 digits and 45 alphanumeric characters x levels x versions {1,9,10,26,27,40} x {capacity, +1} x {alone, first, last among the representative} [%d library calls]", len(cases)), n,
+		func(i int) string { return fmt.Sprintf("%+v", cases[i*chunk]) },
+		func(l *mc.Local, i int) {
+			for k := i * chunk; k < (i+1)*chunk && k < len(cases); k++ {
+				modeCharOne(l, cases[k])
+			}
+		})
+	chk.Sample("mode-char", cases[len(cases)/2])
 }
